@@ -66,10 +66,14 @@ impl View for ScrollBar {
         let fg = Face::new(None, self.face.fg, FaceAttrs::EMPTY);
         let bg = Face::new(None, self.face.bg, FaceAttrs::EMPTY);
         for index in 0..major {
-            if index < offset || index >= offset + size {
-                writer.put_cell(Cell::new_char(bg, ' '));
+            let face = if index < offset || index >= offset.saturating_add(size) {
+                bg
             } else {
-                writer.put_cell(Cell::new_char(fg, ' '));
+                fg
+            };
+            // layout can be (much) longer than the surface, stop once it is full
+            if !writer.put_cell(Cell::new_char(face, ' ')) {
+                break;
             }
         }
         Ok(())
